@@ -1,9 +1,9 @@
 package main
 
 import (
-	"encoding/binary"
 	"bytes"
 	"compress/gzip"
+	"encoding/binary"
 	"encoding/hex"
 	"encoding/json"
 	"fmt"
